@@ -657,3 +657,53 @@ def valid_content(ctx, prog):
     ok = per_mask and union and res_ok and nres == 1
     ctx.ob(R, "is_valid: per mask `(total & mask) == 0` on the union of the EARLIER masks, `total |= mask` and nothing else, result `total == u64_lsb_ones(len)` with every test passed and len <= 64",
            ok, "; ".join(notes)[:700] if not ok else "per-mask test, union update, single non-false result", f.loc())
+
+
+def sequences_exact(ctx, prog):
+    """`has_sequences(pa, len)`: for every len the answer is `AND_{s < len} (pa >> s) != 0` - a run of len one bits exists.  Decided by
+    constant propagation over the finite domain of len (0..=64 and beyond) with the word kept as the set of shifts it ANDs (sa/absint.py);
+    no value of pa is enumerated."""
+    from .. import absint
+    R = "SA-ABSINT"
+    ctx.rule(R, "abstract interpretation with `len` concrete and the position word symbolic (as the set of shifts of pa that are ANDed): for every len in 0..=64 the result is the run test of exactly that length; beyond 64 it is false")
+    fs = [f for f in prog.fns if f.path.endswith("block_hash_position_array_element::has_sequences")]
+    if len(fs) != 1:
+        return ctx.ob("ANCHOR", "has_sequences", False, "%d bodies" % len(fs))
+    f = fs[0]
+    ctx.visit(f)
+    bad = []
+    for n in list(range(0, 66)) + [100, 255]:
+        try:
+            r = absint.run(f, {1: ("runs", frozenset({0})), 2: ("int", n, 32)})
+        except absint.NotInterpretable as e:
+            bad.append("len %d: not interpretable (%s)" % (n, e))
+            continue
+        if r and r[0] == "int" and r[2] == 1:
+            r = ("bool", bool(r[1]))
+        if n == 0:
+            want = ("bool", True)
+        elif n < 64:
+            want = ("nonzero", frozenset(range(n)))
+        elif n == 64:
+            want = ("allones", frozenset({0}))
+        else:
+            want = ("bool", False)
+        if r != want:
+            bad.append("len %d: %s" % (n, (r[0], sorted(r[1]) if isinstance(r[1], frozenset) else r[1]) if r else r))
+    ctx.ob(R, "has_sequences(pa, len) is the run test of length len for every len", not bad, "; ".join(bad[:4]) or "68 lengths interpreted", f.loc())
+    # the const-generic front `has_sequences_const::<LEN>` at the instantiation the crate uses (MAX_SEQUENCE_SIZE + 1) and around it
+    gs = [g for g in prog.fns if g.path.endswith("block_hash_position_array_element::has_sequences_const")]
+    if len(gs) == 1:
+        g = gs[0]
+        ctx.visit(g)
+        mx = int(prog.const("block_hash::MAX_SEQUENCE_SIZE")["v"])
+        bad = []
+        for n in sorted({2, 3, mx + 1, 5, 8, 16, 33, 63}):
+            try:
+                r = absint.run(g, {1: ("runs", frozenset({0}))}, tyconsts={"LEN": n}, prog=prog)
+            except absint.NotInterpretable as e:
+                bad.append("LEN %d: not interpretable (%s)" % (n, e))
+                continue
+            if r != ("nonzero", frozenset(range(n))):
+                bad.append("LEN %d: %s" % (n, (r[0], sorted(r[1]) if isinstance(r[1], frozenset) else r[1]) if r else r))
+        ctx.ob(R, "has_sequences_const::<LEN>(pa) is the run test of length LEN (at MAX_SEQUENCE_SIZE + 1 and seven other lengths)", not bad, "; ".join(bad[:4]) or "8 instantiations interpreted", g.loc())
